@@ -149,9 +149,14 @@ class Spec:
         eng.builtins["__mapbuilt__"] = lemmas.map_built
 
     def global_axioms(self):
+        if getattr(self, "_ga", None) is None:
+            self._ga = self._global_axioms()
+        return self._ga
+
+    def _global_axioms(self):
         x = z3.Real("x!ax")
         from .c_registry import memb_axioms
-        return [z3.ForAll([x], z3.Implies(x > 1, rlog(x) > 0)), rlog(z3.RealVal(1)) == 0] + memb_axioms()
+        return [z3.ForAll([x], z3.Implies(x > 1, rlog(x) > 0)), rlog(z3.RealVal(1)) == 0] + memb_axioms() + size_axioms()
 
     def invariant(self, name, c):
         return list(INVARIANTS[name](c))
@@ -212,7 +217,8 @@ def I_P(c):
     yield "I_P.no-zero-exponent", z3.ForAll([p], z3.Implies(
         z3.And(c.alivez("Prefix", p), F(p, "_initialized"), F(p, "base") != 0), Num.nval(F(p, "exponent")) != 0))
     yield "I_P.identity", z3.And(c.alive(IdentityPrefix), init(c, IdentityPrefix), pbase(c, IdentityPrefix) == 0,
-                                 pexp(c, IdentityPrefix) == 0)
+                                 pexp(c, IdentityPrefix) == 0,
+                                 rpowr(z3.ToReal(pbase(c, IdentityPrefix)), pexp(c, IdentityPrefix)) == 1)
 
 
 INVARIANTS["I_P"] = I_P
@@ -302,3 +308,27 @@ def I_U(c):
 
 
 INVARIANTS["I_U"] = I_U
+
+
+# ---------------------------------------------------------------------------------------------
+# sizes (C04-C06, C11): ghost real-valued size of a unit, multiplicative in the prefix
+
+bsize = z3.Function("bsize", sort_of(T_FMAP), R)  # size of the unprefixed product of base units (ghost, > 0)
+offset_free_m = z3.Function("offset_free_m", sort_of(T_FMAP), B)  # ghost: no factor is a scale with a zero offset (C10)
+
+
+def pval_z(c, p_ref):
+    return rpowr(z3.ToReal(c.fz("Prefix", p_ref, "base")), Num.nval(c.fz("Prefix", p_ref, "exponent")))
+
+
+def size(c, u_ref):
+    """size(u) = value(prefix) * size of the unprefixed factor product"""
+    return pval_z(c, c.fz("Unit", u_ref, "prefix")) * bsize(c.fz("Unit", u_ref, "factors"))
+
+
+def size_axioms():
+    m = z3.Const("m!sz", sort_of(T_FMAP))
+    b, e = z3.Real("b!sz"), z3.Real("e!sz")
+    return [z3.ForAll([m], bsize(m) > 0),
+            z3.ForAll([b, e], z3.Implies(b > 0, rpowr(b, e) > 0)),
+            z3.ForAll([b], rpowr(b, z3.RealVal(0)) == 1)]
